@@ -266,7 +266,7 @@ COMPONENTS = [
               rule="two designs, displacement direction within the cone, gap eps(1+eta), eta 1e-3..0.5"),
     Component("P_is_pareto_of_means", check_P_identity, strategy=st_pid, quick=300, thorough=8000,
               rule="2..7 designs, 1..6 or 45..130 rounds (beyond the 50-round logging throttle), recording proxy on problem.evaluate; compared after every step incl. one step after completion"),
-    Component("P_is_pareto_of_means_long_runs", check_P_identity, strategy=st_pid_long, quick=16, thorough=200,
+    Component("P_is_pareto_of_means_long_runs", check_P_identity, strategy=st_pid_long, quick=12, thorough=200,
               rule="2..4 designs, runs of 1025..4136 rounds (just beyond a power of two: sample storage that grows in steps); compared "
                    "every 97th round, in the three rounds after each power of two and at the end"),
     Component("default_L_monte_carlo", check_monte_carlo, strategy=st_mc, quick=24, thorough=400,
